@@ -221,6 +221,33 @@ def run_case(case):
             exp = 2 * pinball(yf, mf.predict(X), q).mean()
             if abs(sf - exp) > 1e-9 * max(1.0, abs(exp)) or abs(si - sf) > 1e-9 * max(1.0, abs(sf)):
                 bad("score != 2 * mean pinball loss", "%s,integer-dtype targets" % qc, "int %r float %r expected %r y=%r" % (si, sf, exp, yi.tolist()))
+    # magnitudes: one target far away from the others (a corrupted record), and the whole problem in large units; the pinball
+    # optimum is insensitive to how far an outlier lies, and the IRLS floor `delta` is an absolute quantity
+    for ys in case["ys"][:2]:
+        base = numpy.array(ys, dtype=numpy.float64) + numpy.array(JIT[:n])
+        for vname, y in (("one target at +1e7", numpy.where(numpy.arange(n) == 0, 1.0e7, base)),
+                         ("one target at -1e7", numpy.where(numpy.arange(n) == n - 1, -1.0e7, base)),
+                         ("one target at +1e4", numpy.where(numpy.arange(n) == 1, 1.0e4, base)),
+                         ("all targets x 1e5", base * 1.0e5)):
+            for q in (0.25, 0.5, 0.9):
+                cnt += 1
+                cond = "%s,no weights,target magnitudes" % ("q=0.5" if q == 0.5 else "q!=0.5")
+                desc = "d=%d y=%r (%s) q=%s" % (d, y.tolist(), vname, q)
+                try:
+                    m = QuantileLinearRegression(quantile=q, max_iter=1000, delta=1e-4).fit(X, y)
+                    f = numpy.asarray(m.predict(X))
+                except Exception as e:
+                    bad("fit raises %s" % type(e).__name__, cond, "%s %s" % (str(e)[:200], desc))
+                    continue
+                L = pinball(y, f, q).sum()
+                Ls = lp_optimum(numpy.hstack([X, numpy.ones((n, 1))]), y, q, None, [])
+                tol = n * 1e-4 * 4 + 1e-9 * abs(Ls)
+                if L > Ls + tol:
+                    bad("not a pinball-loss minimiser", cond, "loss %r optimum %r (tol %g) %s" % (L, Ls, tol, desc))
+                sc = float(m.score(X, y))
+                exp = 2 * pinball(y, f, q).mean()
+                if abs(sc - exp) > 1e-12 * max(1.0, abs(exp)):
+                    bad("score != 2 * mean pinball loss", cond, "score %r expected %r %s" % (sc, exp, desc))
     # the same training set / scoring set stored behind other memory layouts and dtypes: same optimality, same score identity
     from checks.catalog import layouts
     pair = {"Fortran order": "column of a C-ordered table", "strided window of a larger table": "every second element",
